@@ -27,6 +27,12 @@ BEHAVIOURS = {
     'exc': {'kind': 'raise_exc', 'exc': 'RuntimeError', 'marker': 'MARKER-c10'},
 }
 METHODS = ['ret', 'rpc', 'exc', 'plain', 'v.view', 'nope', 'w.scratch', 'w.scratch']
+EXC_TYPES = ['RuntimeError', 'TypeError', 'KeyError', 'AttributeError', 'ValueError', 'AssertionError', 'LookupError']
+
+
+def behaviours_for(spec: Dict[str, Any]) -> Dict[str, Any]:
+    """the failing coroutine method raises the exception type of the case (after its suspension points)"""
+    return {**BEHAVIOURS, 'exc': {**BEHAVIOURS['exc'], 'exc': spec.get('exc_type', 'RuntimeError')}}
 
 
 def build_text(elements: List[Dict[str, Any]], id_style: str = 'ascending') -> str:
@@ -116,7 +122,7 @@ class C10(Check):
 
         return st.builds(
             lambda c, els, mw, eh, ek, e7, ids: fit({'concurrent': c, 'elements': els, 'mw_suspend': mw, 'eh_suspend': eh, 'eh_kind': ek, 'eh_code7': e7,
-                                                     'schedule': 'all', 'id_style': ids, 'context': 'none' if (len(els) + (mw or 0)) % 3 == 0 else 'object'}),
+                                                     'schedule': 'all', 'id_style': ids, 'exc_type': EXC_TYPES[(len(els) + (eh or 0) + len(ids)) % len(EXC_TYPES)], 'context': 'none' if (len(els) + (mw or 0)) % 3 == 0 else 'object'}),
             st.booleans(), st.lists(s_el, min_size=2, max_size=4), st.sampled_from([None, None, 0, 1]), st.sampled_from([None, None, 0, 1]),
             st.sampled_from(['identity', 'annotate', 'annotate', 'replace']), st.sampled_from([None, None, 'annotate', 'replace']),
             st.sampled_from(['ascending', 'descending', 'mixed']),
@@ -136,6 +142,9 @@ class C10(Check):
         out.append({'concurrent': True, 'elements': [c('ret', 2), c('rpc', 2), c('exc', 2), c('ret', 2)], 'mw_suspend': None, 'eh_suspend': None, 'schedule': 'all'})
         out.append({'concurrent': False, 'context': 'none', 'elements': [c('ret', 1), c('ret', 1), c('rpc', 1, 'notification')], 'mw_suspend': 1, 'eh_suspend': None, 'schedule': 'all'})
         out.append({'concurrent': True, 'context': 'none', 'elements': [c('ret', 1), c('exc', 1)], 'mw_suspend': None, 'eh_suspend': 1, 'eh_kind': 'annotate', 'schedule': 'all'})
+        for et in EXC_TYPES:
+            for conc in (True, False):
+                out.append({'concurrent': conc, 'exc_type': et, 'elements': [c('exc', 1), c('ret', 1), c('exc', 0, 'notification')], 'mw_suspend': None, 'eh_suspend': None, 'schedule': 'all'})
         for conc in (True, False):
             for ids in ('descending', 'mixed'):
                 out.append({'concurrent': conc, 'elements': [c('ret', 1), c('ret', 0), c('rpc', 1), c('ret', 0, 'notification')], 'mw_suspend': None, 'eh_suspend': None,
@@ -171,7 +180,7 @@ class C10(Check):
         sentinel = object()
         ev.sentinel = sentinel
         suspend = {f"tag:{i}": el.get('suspend', 0) for i, el in enumerate(spec['elements'])}
-        hm.RT.reset(sentinel, BEHAVIOURS, error_builder=sh.build_error, point=s.point, suspend=suspend)
+        hm.RT.reset(sentinel, behaviours_for(spec), error_builder=sh.build_error, point=s.point, suspend=suspend)
         d = hm.build_dispatcher('async', REGISTRY, middlewares=mws, error_handlers=table, concurrent_batch=spec['concurrent'])
         # the caller may pass no context at all (dispatch(text)): sequential mode is about the elements, not about the context object
         result, exc, counts = s.run((lambda: d.dispatch(text)) if spec.get('context') == 'none' else (lambda: d.dispatch(text, sentinel)), choices)
@@ -180,7 +189,7 @@ class C10(Check):
     def run_case(self, spec: Any) -> Outcome:
         text = build_text(spec['elements'], spec.get('id_style', 'ascending'))
         mws_model = [] if spec.get('mw_suspend') is None else [{'kind': 'pass'}]
-        exp_doc, exp_executions, _events, _classes = stack.expect_stack(text, REGISTRY, BEHAVIOURS, mws_model, handler_table(spec))
+        exp_doc, exp_executions, _events, _classes = stack.expect_stack(text, REGISTRY, behaviours_for(spec), mws_model, handler_table(spec))
         discs: List[Disc] = []
         seen_buckets = set()
         stats = {'schedules': 0, 'reordered': 0}
